@@ -5,6 +5,8 @@ CONSTANTS
   Layouts <- Lay3
   MaxOps = 3
   MaxStep = 2
+  Fills = {0, 7}
+  ValKinds = {"fresh", "zero"}
   Emit = TRUE
 INVARIANTS TypeOK
 PROPERTIES Stable BlockExact
